@@ -316,10 +316,10 @@ theorem updLoop_rep {T n : Nat} {C : H → Option Pos} (hn63 : n < 2 ^ 63) :
 /-- general form: `d` is a position of the forest geometry or lies on/above its top row -/
 theorem updateHashes_rep_gen {m : MapPollard H} {T n : Nat} {A : Pos → Option (Leaf H)} {C : H → Option Pos}
     (rep : Rep m T A C) (hn : m.numLeaves = BitVec.ofNat 64 n) (hn63 : n < 2 ^ 63)
-    (hfull : m.full = false) {d : Pos} (hd : Valid T d) (hlt : d.1 < T)
+    {fl : Bool} (hfull : m.full = fl) {d : Pos} (hd : Valid T d) (hlt : d.1 < T)
     (hdv : Valid (forestRows n) d ∨ forestRows n ≤ d.1) (hash : H) :
     Rep (m.updateHashes (encP T d) hash) T
-      (updLoopA n T (T + 1 - (d.1 + 1)) (parent d) ⟨hash, false⟩ A) C ∧
+      (updLoopA n T (T + 1 - (d.1 + 1)) (parent d) ⟨hash, fl⟩ A) C ∧
       (m.updateHashes (encP T d) hash).numLeaves = m.numLeaves ∧ (m.updateHashes (encP T d) hash).full = m.full := by
   have hT := rep.T_le
   have hP := valid_parent hd hlt
@@ -331,15 +331,15 @@ theorem updateHashes_rep_gen {m : MapPollard H} {T n : Nat} {A : Pos → Option 
   rw [rep.rows, MapPrune.parent_encP hT hd hlt]
   simp only
   rw [detectRow_encP hT hP, hfull, toNat_rowIters (by have := hP.1; omega) hT]
-  obtain ⟨r, a, b⟩ := updLoop_rep hn63 (T + 1 - (d.1 + 1)) (parent d) ⟨hash, false⟩ rep hn hP hg rfl
+  obtain ⟨r, a, b⟩ := updLoop_rep hn63 (T + 1 - (d.1 + 1)) (parent d) ⟨hash, fl⟩ rep hn hP hg rfl
   exact ⟨r, a, b.trans hfull⟩
 
 /-- (the statement of the brief needs `hdv`: see `updateHashes_rep_false` below) -/
 theorem updateHashes_rep {m : MapPollard H} {T n : Nat} {A : Pos → Option (Leaf H)} {C : H → Option Pos}
     (rep : Rep m T A C) (hn : m.numLeaves = BitVec.ofNat 64 n) (hn63 : n < 2 ^ 63) (hfit : forestRows n ≤ T)
-    (hfull : m.full = false) {d : Pos} (hd : Valid T d) (hlt : d.1 < T) (hdv : Valid (forestRows n) d) (hash : H) :
+    {fl : Bool} (hfull : m.full = fl) {d : Pos} (hd : Valid T d) (hlt : d.1 < T) (hdv : Valid (forestRows n) d) (hash : H) :
     Rep (m.updateHashes (encP T d) hash) T
-      (updLoopA n T (T + 1 - (d.1 + 1)) (parent d) ⟨hash, false⟩ A) C ∧
+      (updLoopA n T (T + 1 - (d.1 + 1)) (parent d) ⟨hash, fl⟩ A) C ∧
       (m.updateHashes (encP T d) hash).numLeaves = m.numLeaves ∧ (m.updateHashes (encP T d) hash).full = m.full :=
   updateHashes_rep_gen rep hn hn63 hfull hd hlt (Or.inl hdv) hash
 
@@ -409,9 +409,9 @@ theorem forgetUnneededDel_rep {m : MapPollard H} {T n : Nat} {A : Pos → Option
 /-- `removeSingle` of a root -/
 theorem removeSingle_root_rep {m : MapPollard H} {T n : Nat} {A : Pos → Option (Leaf H)} {C : H → Option Pos}
     (rep : Rep m T A C) (hn : m.numLeaves = BitVec.ofNat 64 n) (hn63 : n < 2 ^ 63) (hfit : forestRows n ≤ T)
-    (hfull : m.full = false) {d : Pos} (hd : Valid T d) (hroot : isRootPos n d = true) :
+    {fl : Bool} (hfull : m.full = fl) {d : Pos} (hd : Valid T d) (hroot : isRootPos n d = true) :
     ∃ m', MapPollard.removeSingle (encP T d) m = (m', .ok ()) ∧
-      Rep m' T (upd (clearBelow d A) d (some ⟨zero, false⟩)) C ∧ m'.numLeaves = m.numLeaves ∧ m'.full = m.full := by
+      Rep m' T (upd (clearBelow d A) d (some ⟨zero, fl⟩)) C ∧ m'.numLeaves = m.numLeaves ∧ m'.full = m.full := by
   have hT := rep.T_le
   obtain ⟨rep1, a1, b1⟩ := forgetBelow_rep rep hd
   have hr : (m.forgetBelow (encP T d)).isRoot (encP T d) = true := by
@@ -469,7 +469,7 @@ theorem pre_below {A : Pos → Option (Leaf H)} {d c : Pos} (node : Leaf H) (hc 
 /-- `removeSingle` of a non-root whose sibling is stored -/
 theorem removeSingle_nonroot_rep {m : MapPollard H} {T n : Nat} {A : Pos → Option (Leaf H)} {C : H → Option Pos}
     (rep : Rep m T A C) (hn : m.numLeaves = BitVec.ofNat 64 n) (hn63 : n < 2 ^ 63) (hfit : forestRows n ≤ T)
-    (hfull : m.full = false) {d ρ : Pos} (hd : Valid T d) (hnr : isRootPos n d = false)
+    {fl : Bool} (hfull : m.full = fl) {d ρ : Pos} (hd : Valid T d) (hnr : isRootPos n d = false)
     (hρ : isRootPos n ρ = true) (hρd : Anc ρ d) {node : Leaf H} (hsib : A (sib d) = some node)
     -- a stored node below the sibling whose hash is cached is cached at its own position
     (hc : ∀ c v, SUnder (sib d) c → A c = some v → ∀ t, cacheSib node (parent d) C v.hash = some t → t = c)
@@ -478,7 +478,7 @@ theorem removeSingle_nonroot_rep {m : MapPollard H} {T n : Nat} {A : Pos → Opt
     ∃ m', MapPollard.removeSingle (encP T d) m = (m', .ok ()) ∧
       Rep m' T
         (fgLoopA n (T + 1 - d.1) d
-          (updLoopA n T (T + 1 - (d.1 + 1)) (parent d) ⟨node.hash, false⟩
+          (updLoopA n T (T + 1 - (d.1 + 1)) (parent d) ⟨node.hash, fl⟩
             (liftA (sib d) (upd (upd (upd (clearBelow d A) d none) (sib d) none) (parent d) (some node)))))
         (liftC (sib d) (cacheSib node (parent d) C)) ∧
       m'.numLeaves = m.numLeaves ∧ m'.full = m.full := by
@@ -546,7 +546,7 @@ theorem removeSingle_nonroot_rep {m : MapPollard H} {T n : Nat} {A : Pos → Opt
   -- 6. updateHashes
   have n5 : m5.numLeaves = BitVec.ofNat 64 n := by
     rw [a5, a4]; exact a1.trans hn
-  have f5 : m5.full = false := by
+  have f5 : m5.full = fl := by
     rw [b5, b4]; exact b1.trans hfull
   obtain ⟨rep6, a6, b6⟩ := updateHashes_rep rep5 n5 hn63 hfit f5 hd hlt hdh node.hash
   -- 7. forgetUnneededDel
